@@ -892,11 +892,14 @@ PROPS = {
                 level_text="client MTU after any history = last valid exchanged value or 23; invalid exchanges are rejected without state change; responses and (with fix attaccess-01) notifications/indications never exceed min(server MTU, client MTU).",
                 level_note="requires fixes/attaccess-01-l2cap-output-mtu.patch; without it the check reports C08:notification-exceeds-negotiated-mtu"),
     "C06": dict(COMMON,
-                theorems=[T + "write_refines", T + "write_rejected_unchanged", T + "read_refines", T + "no_write_enforced", T + "no_read_enforced_bound", T + "properties_match_permissions_partial"],
-                witnesses=[T + "no_read_handler_witness"],
-                run=run_c06, design_ref="§5 C06", imports=["BluetoeModel.AttAccess.ValueProps"],
-                level_text="Write Request to a bound value stores exactly the written bytes at offset 0 and changes nothing else, a rejected write changes nothing, Read / Read Blob return the value from the offset truncated to MTU-1 or Invalid Offset past the end; permissions are enforced for bound / fixed values.",
-                level_note="no_read_access is not enforced for handler and cstring values (known finding, witness theorem)"),
+                theorems=[T + "write_refines", T + "write_rejected_unchanged", T + "read_refines", T + "no_write_enforced", T + "no_read_enforced_bound", T + "properties_match_permissions_partial",
+                          T + "write_property_matches_permission", T + "read_property_matches_permission_partial", T + "read_property_excluded_all_fail",
+                          T + "declared_read_permitted", T + "declared_write_permitted", T + "handler_read_refines", T + "handler_write_refines",
+                          T + "handler_permissions_enforced", T + "no_read_access_enforced_partial", T + "no_read_cstring_all_fail"],
+                witnesses=[T + "no_read_handler_witness", T + "read_property_full_witness", T + "no_read_access_handler_witness", T + "no_read_access_cstring_witness"],
+                run=run_c06, design_ref="§5 C06", imports=["BluetoeModel.AttAccess.ValueProps", "BluetoeModel.AttAccess.Permissions"],
+                level_text="Write Request to a bound value stores exactly the written bytes at offset 0 and changes nothing else, a rejected write changes nothing, Read / Read Blob return the value from the offset truncated to MTU-1 or Invalid Offset past the end. Declared properties vs permissions for every value kind (bound, fixed, cstring/blob, handler): no Write property => every write refused and nothing changes (full strength); no Read property => no read succeeds, except exactly handler values with a read handler and no_read_access; a declared Read / Write property is never answered Read / Write Not Permitted by the library. Handler values under the documented contract (out_size <= read_size): a read/write is exactly the handler's answer (plain handlers: offset 0 only, else Attribute Not Long), write-only / read-only handler characteristics refuse the other direction. The no_read_access option is enforced for bound, fixed and handler-without-read-handler values.",
+                level_note="Excluded inputs = exactly the two known findings: no_read_access is ignored by value_handler_base (handler values with a read handler: declaration lacks Read but reads succeed) and by cstring_wrapper (cstring / fixed blob values: declared readable and readable); witness theorems for both, and theorems that every excluded input does violate the full statement (the exclusion is not larger than the finding)."),
     "C05": dict(COMMON,
                 theorems=[T + "protected_read_rejected", T + "protected_write_rejected", T + "protected_request_rejected", T + "protected_not_notified", T + "protected_not_read_by_type", T + "requiresEnc_table"],
                 witnesses=[],
